@@ -2,6 +2,7 @@ ID = "C13"
 LEVEL = "model_checking"
 HARNESS = "harness/c13_sequencer.py"
 MODE = "src"
+CROSSHAIR = ["crosshair/c13_contracts.py"]       # second engine, thorough tier
 EXPLANATION = ("Inductive step from the state after an arbitrary number n of requests (n symbolic, unbounded) plus a periodicity lemma (ten requests restore the state, "
                "checked observationally), plus bounded model checking of every operation string through the public API with symbolic start values.")
 BOUNDS = {"quick": "inductive step: any n >= 0, any start values; BMC: all 2^d op strings over {next, set(v)} for every depth d <= 6 with symbolic v",
